@@ -117,3 +117,29 @@ Definition srv17_new (apid subservice : Z) (timestamp : bytes) (ssc : Z) (source
   tm_new S17_TEST subservice timestamp source apid ssc 0 ref dest version.
 Definition srv17_pack := tm_pack.
 Definition srv17_unpack := tm_unpack.
+
+(* ---- operation histories on a telemetry object ---- *)
+Inductive tm_op := TmPack | TmCalcCrc | TmSetData (d : bytes) | TmSetApid (v : Z) | TmSetSeqFlags (v : Z).
+
+Definition tm_apply (t : tm) (o : tm_op) : res tm :=
+  match o with
+  | TmPack => do r <- tm_pack t; Ok (snd r)
+  | TmCalcCrc => tm_calc_crc t
+  | TmSetData d => Ok (tm_set_tm_data t d)
+  | TmSetApid v =>
+      let h := tm_sph t in
+      Ok {| tm_sph := {| ver := ver h; ptype := ptype h; shf := shf h; apid := v; sflags := sflags h;
+                         scount := scount h; dlen := dlen h |};
+            tm_sec := tm_sec t; tm_src := tm_src t; tm_crc := tm_crc t |}
+  | TmSetSeqFlags v =>
+      let h := tm_sph t in
+      Ok {| tm_sph := {| ver := ver h; ptype := ptype h; shf := shf h; apid := apid h; sflags := v;
+                         scount := scount h; dlen := dlen h |};
+            tm_sec := tm_sec t; tm_src := tm_src t; tm_crc := tm_crc t |}
+  end.
+
+Fixpoint tm_run (t : tm) (ops : list tm_op) : res tm :=
+  match ops with
+  | [] => Ok t
+  | o :: r => do t' <- tm_apply t o; tm_run t' r
+  end.
